@@ -470,7 +470,9 @@ class Pinv(_LSBase):
         else:
             rec.label("pinv:opt:default")
         with rec.sut("PINV(%s)" % ",".join(sorted(kw))):
-            x = ppos.PINV(hermitian=herm, **kw)(A, b)
+            solver = ppos.PINV(hermitian=herm, **kw)
+            _decoy(rec, "pinv", case.get("seed", 0))
+            x = solver(A, b)
         self.describe(case, items, rec, (("herm",) if herm else ()) + ((opt,) if opt != "default" else ()))
         n = items[0].n
         if not rec.check(tuple(x.shape) == tuple(case["batch"]) + (n, 1), "pinv:shape",
@@ -534,7 +536,9 @@ class Lstsq(_LSBase):
         else:
             rec.label("lstsq:rcond:default")
         with rec.sut("LSTSQ(driver=%s, rcond=%s)" % (drv, rcond)):
-            x = ppos.LSTSQ(rcond=rcond, driver=drv)(A, b)
+            solver = ppos.LSTSQ(rcond=rcond, driver=drv)
+            _decoy(rec, "lstsq", case.get("seed", 0))
+            x = solver(A, b)
         self.describe(case, items, rec, (case["driver"],) + ((ropt, trunc) if ropt != "default" else ()))
         rec.label("driver:" + case["driver"])
         if not rec.check(tuple(x.shape) == tuple(case["batch"]) + (n, 1), "lstsq:shape",
@@ -607,6 +611,22 @@ def _chol_case(draw):
             "smode": draw(st.sampled_from(SMODES)), "bkind": draw(st.sampled_from(("random", "random", "range", "eig", "zero"))),
             "ascale_exp": draw(st.sampled_from(range(-3, 4))), "bscale_exp": draw(st.sampled_from(range(-3, 4))),
             "factor": draw(st.sampled_from(("qr", "qr", "householder"))), "seed": draw(st.integers(0, 2 ** 31 - 1))}
+
+
+def _decoy(rec, kind, seed, upper=False):
+    """A second, independent solver object of the same class with very different options, constructed AFTER the solver under test
+    and BEFORE that one is called (two cases in five).  Solver objects are independent: the options of one object are its own
+    (options kept in class-level / module-level state would silently be those of the most recently constructed object - seed C10h)."""
+    if seed % 5 not in (1, 3):
+        return None
+    rec.label("second_solver_object:" + kind)
+    if kind == "pinv":
+        return ppos.PINV(hermitian=(seed % 5 == 1), rtol=0.5, atol=1e3) if seed % 5 == 1 else ppos.PINV(rtol=0.5)
+    if kind == "lstsq":
+        return ppos.LSTSQ(rcond=0.5, driver="gelsd")
+    if kind == "chol":
+        return ppos.Cholesky(upper=not upper)
+    return ppos.CG(maxiter=1, tol=0.5)
 
 
 class Cholesky(Sub):
@@ -694,6 +714,7 @@ class Cholesky(Sub):
         if "weak_indef" in sub:
             sub += ":%s:1e-%d" % (dtype, int(case.get("dexp", 6)))
         solver = ppos.Cholesky(upper=bool(case.get("upper", False)))
+        _decoy(rec, "chol", case.get("seed", 0), upper=bool(case.get("upper", False)))
         if all_pd:
             with rec.sut("Cholesky"):
                 x = solver(A, b)
@@ -873,6 +894,7 @@ class CGSub(Sub):
         reused = case["seed"] % 3 == 0
         with rec.sut("CG(%s)" % lay):
             solver = ppos.CG(tol=case["tol"])
+            _decoy(rec, "cg", case.get("seed", 0))
             if reused:
                 k0 = 2 + case["seed"] % 2
                 solver(torch.eye(k0, dtype=tA.dtype) * 2.0, torch.ones(k0, 1, dtype=tA.dtype))
